@@ -44,6 +44,10 @@ def rule_converters(ctx):
         first = a[0] if a else None
         fwd = first is not None and first.op == "param" and first.a[0] == f.params[0]
         kw = dict(c[0].kw)
+        g_ld = ctx.program.func("io.load_delimited", R)
+        for i_, a_ in enumerate(a):
+            if i_ < len(g_ld.params):
+                kw.setdefault(g_ld.params[i_], a_)
         fwd_opts = all(k in kw and kw[k].op == "param" and kw[k].a[0] == k for k in ("delimiter", "comment"))
         yield ob(R, f, "%s:converters" % q, got == want and fwd and fwd_opts, "columns are converted with %s (documented %s); filename, delimiter and comment are forwarded" % (got, want), node=c[0].node)
         # arrays at default precision
